@@ -11,18 +11,21 @@ Definition lower_down (s : St) : bool := match s with Initial | Starting => true
 Lemma down_lower c v f : lower_down (st (step c v f EDown)) = true.
 Proof. destruct f as [s i r fl l a o hl ns pk]; destruct s; reflexivity. Qed.
 
-Lemma checkOpen_sys s : sy (fst (checkOpen s)) = sy s.
-Proof. unfold checkOpen. destruct (ph s); try reflexivity. destruct (ipcpOpen s || ip6Open s); reflexivity. Qed.
+Lemma checkOpen_sys c s : sy (fst (checkOpen c s)) = sy s.
+Proof.
+  unfold checkOpen. destruct (ph s); try reflexivity.
+  destruct ((ipcpOpen s || ip6Open s) && negb (lns c && published s)); reflexivity.
+Qed.
 
-Lemma ncp_callback_sys t a s : sy (fst (ncp_callback t a s)) = sy s.
+Lemma ncp_callback_sys c t a s : sy (fst (ncp_callback c t a s)) = sy s.
 Proof. destruct a, t; cbn [ncp_callback]; try reflexivity; rewrite checkOpen_sys; reflexivity. Qed.
 
-Lemma ncp_react_sys t acts : forall s, sy (fst (ncp_react t acts s)) = sy s.
+Lemma ncp_react_sys c t acts : forall s, sy (fst (ncp_react c t acts s)) = sy s.
 Proof.
   induction acts as [|a acts IH]; intros s; [reflexivity|]. cbn [ncp_react].
-  pose proof (ncp_callback_sys t a s) as C.
-  destruct (ncp_callback t a s) as [s1 o1]. cbn [fst] in C.
-  pose proof (IH s1) as R. destruct (ncp_react t acts s1) as [s2 o2]. cbn [fst] in *. congruence.
+  pose proof (ncp_callback_sys c t a s) as C.
+  destruct (ncp_callback c t a s) as [s1 o1]. cbn [fst] in C.
+  pose proof (IH s1) as R. destruct (ncp_react c t acts s1) as [s2 o2]. cbn [fst] in *. congruence.
 Qed.
 
 Lemma ncp_apply_sys c v t e s :
@@ -31,12 +34,15 @@ Proof. unfold ncp_apply, ncp_event. rewrite ncp_react_sys. reflexivity. Qed.
 
 (* onLCPDown: both NCP automata are taken Down and the phase falls back to Establish *)
 Lemma lcp_down_callback c v s :
+  (lns c = false \/ lns_down_fixed c = true) ->
   let s' := fst (lcp_callback c v Tld s) in
   ph s' = PhEstablish /\
   lower_down (st (s_ipcp (sy s'))) = true /\ lower_down (st (s_ip6 (sy s'))) = true /\
   s_lcp (sy s') = s_lcp (sy s).
 Proof.
-  cbn zeta. unfold lcp_callback, seq2.
+  intros OW. cbn zeta. unfold lcp_callback, seq2.
+  replace (lns c && negb (lns_down_fixed c)) with false
+    by (destruct OW as [-> | ->]; [reflexivity|rewrite andb_false_r; reflexivity]).
   pose proof (ncp_apply_sys c v TIpcp EDown s) as Y1.
   destruct (ncp_apply c v TIpcp EDown s) as [s1 o1]. cbn [fst] in Y1.
   pose proof (ncp_apply_sys c v TIp6 EDown s1) as Y2.
@@ -57,9 +63,9 @@ Proof.
   destruct (st_eqb (st (s_lcp (sy s))) Opened && negb match ph s with PhLACTunneled => true | _ => false end); reflexivity.
 Qed.
 
-(* today's closure: LCP Opened, phase Authenticate, Echo-Request with a Magic-Number: no Echo-Reply *)
-Definition scfg_head : scfg := mkScfg default_cfg true false.
-Definition scfg_rep : scfg := mkScfg default_cfg true true.
+(* the closure before 1b41d89: LCP Opened, phase Authenticate, Echo-Request with a Magic-Number: no Echo-Reply *)
+Definition scfg_head : scfg := mkScfg default_cfg true false false false.   (* internal/pppoe before 1b41d89 *)
+Definition scfg_rep : scfg := mkScfg default_cfg true true false false.     (* internal/pppoe, /repo HEAD *)
 Definition lcp_bringup : list XOp :=
   [XUp; XFrame ProtoLCP [1; 7; 0; 8; 1; 4; 5; 212] CGood; XFrame ProtoLCP [2; 1; 0; 4] CGood].
 Definition echo_req : XOp := XFrame ProtoLCP (echo_frame 5 [1; 2; 3; 4; 170]) CGood.
@@ -80,4 +86,23 @@ Lemma session_nonvac :
   let s' := fst (sess_step scfg_rep Repaired s (XFrame ProtoLCP [5; 9; 0; 4] CGood)) in
   ph s' = PhEstablish /\ st (s_lcp (sy s')) = Stopping /\ st (s_ipcp (sy s')) = Starting /\
   st (s_ip6 (sy s')) = Starting /\ ipcpOpen s' = false /\ linkEnded s' = true.
+Proof. vm_compute. repeat split; reflexivity. Qed.
+
+(* internal/l2tp (LNS sessions): onLCPDown only resets the phase, the NCP automata never get the Down event that
+   this-layer-down of LCP stands for (RFC 1661 4.4): IPCP stays Opened across an LCP renegotiation although the
+   link below it is down; with the callback repaired (as internal/pppoe) it goes Down *)
+Definition scfg_lns_head : scfg := mkScfg default_cfg true true true false.
+Definition scfg_lns_rep : scfg := mkScfg default_cfg true true true true.
+Definition lns_open_ops : list XOp :=
+  lcp_bringup ++ [XAuth true; XFrame ProtoIPCP [1; 7; 0; 10; 3; 6; 10; 55; 0; 2] CGood; XFrame ProtoIPCP [2; 1; 0; 4] CGood].
+Lemma lns_lcp_down_refuted :
+  let peer_renegotiates := XFrame ProtoLCP [1; 8; 0; 8; 1; 4; 5; 212] CGood in
+  let s := fst (sess_run scfg_lns_head Repaired (sess_init (head_pick 0) (head_pick 0) (head_pick 0)) lns_open_ops) in
+  let s' := fst (sess_step scfg_lns_head Repaired s peer_renegotiates) in
+  ph s = PhOpen /\ st (s_ipcp (sy s)) = Opened /\
+  st (s_lcp (sy s')) = AckSent /\ ph s' = PhEstablish /\
+  st (s_ipcp (sy s')) = Opened /\ ipcpOpen s' = true /\
+  (let r := fst (sess_run scfg_lns_rep Repaired (sess_init (head_pick 0) (head_pick 0) (head_pick 0))
+                   (lns_open_ops ++ [peer_renegotiates])) in
+   st (s_ipcp (sy r)) = Starting /\ ipcpOpen r = false /\ ph r = PhEstablish).
 Proof. vm_compute. repeat split; reflexivity. Qed.
